@@ -45,6 +45,7 @@ import Sds.Proofs.Sparse2
 import Sds.Proofs.GenEqBuild
 import Sds.Proofs.GenEqConstr4
 import Sds.Proofs.GenEqConstr3
+import Sds.Proofs.GenEqSpMisc
 
 namespace Sds.C16
 open Sds Outcome BuildersProofs
@@ -441,5 +442,16 @@ theorem sparse_builder_constructors_as_translated_from_source (m : Mode) (fw uni
     (∀ b : SparseBuilderR, 64 * b.high.data.size < U64 → Generated.gen_SparseVector_try_from m b = b.toModel.build) :=
   ⟨GenEq.spb_get_params_eq m fw univ ones hfw2 hu (by omega), GenEq.spb_new_eq m fw univ ones hfw1 hfw2 hu hh hl,
    GenEq.spb_multiset_eq m fw univ ones hfw1 hfw2 hu hh hl, fun b h => GenEq.sparse_try_from_eq m b h⟩
+
+/-! **`SparseBuilder::set` and `Extend::extend` as translated from the source on this run** (`Generated/FnsSpMisc.lean`):
+`set` is `try_set(index).unwrap()` — the model's `trySet` with its `Err` turned into the unwrap panic — and `extend` is
+`set` on every item in order, on every builder reachable through the public API within the representation bounds
+(`SbBounds`, preserved by every accepted call). -/
+theorem sparse_builder_set_extend_as_translated_from_source (m : Mode) (b : SparseBuilder) (h : GenEq.SbBounds b) :
+    (∀ index, Generated.gen_SparseBuilder_set m b index = Generated.unwrapRes (b.trySet index)) ∧
+    (∀ iter : List Nat, Generated.gen_SparseBuilder_extend m b iter =
+        iter.foldlM (fun b i => Generated.unwrapRes (b.trySet i)) b) :=
+  ⟨fun index => GenEq.spb_set_eq_of_inv m b index h.inv h.univ_ok h.low_ok h.high_ok,
+   fun iter => GenEq.spb_extend_eq m b iter h⟩
 
 end Sds.C16
